@@ -19,7 +19,11 @@ def _grid(kind, xmin, xmax, ymin, ymax, nx, ny, params, use_exact, subpixels):
     def elem(j, i):
         dx = (xmax - xmin) / nx
         dy = (ymax - ymin) / ny
-        return vprim.uf('frac_' + kind, 'real', xmin + i * dx, ymin + j * dy, dx, dy, use_exact, subpixels, *params)
+        v = vprim.uf('frac_' + kind, 'real', xmin + i * dx, ymin + j * dy, dx, dy, use_exact, subpixels, *params)
+        vprim.fact(0 <= v and v <= 1)                       # a fraction
+        if use_exact == 0 and subpixels == 1:
+            vprim.fact(v == 0 or v == 1)                    # one sample: member or not
+        return v
     return vprim.arr_from_fn((ny, nx), elem, 'float')
 
 
